@@ -1,5 +1,6 @@
 """C09 - a circuit acts as the ordered product of its gates."""
 import circworld
+import seams
 
 PROP_ID = "C09"
 
@@ -10,14 +11,20 @@ class RunClass(circworld.CircWorld):
 
 def gen_config(rng, tier):
     n = rng.choice([1, 2, 2, 3, 3, 3, 4, 4, 5] + ([6] if tier == "thorough" else []))
+    wide = False
+    if rng.random() < 0.02:
+        n = rng.choice([7, 8, 9])      # a few runs on larger registers (word / byte boundaries, wider tableaux)
+    elif rng.random() < 0.012 and seams.MODE == "JIT":
+        n = rng.choice([33, 65, 66, 72])   # qubit indices beyond 32 / 64 (operator probes only)
+        wide = True
     ops = {"ccnew": 0.6, "take": 5.0, "fwd": 3.0}
     for k, w in (("compose", 1.0), ("ccopy", 0.8), ("compile", 0.8), ("lcompile", 0.8), ("gcompile", 0.5),
                  ("badcompose", 0.2)):
         if rng.random() < 0.7:
             ops[k] = w * rng.choice([0.5, 1.0, 2.0])
     faults = [f for f in ("rejected_op",) if rng.random() < 0.7]
-    return {"n": n, "steps": rng.randrange(5, 40) if tier != "thorough" else rng.randrange(5, 90), "ops": ops, "faults": faults, "flags": ["c09"],
-            "max_gates": rng.choice([4, 8, 12] if tier != "thorough" else [4, 8, 12, 24]), "backend": "torch" if rng.random() < 0.15 else "numpy"}
+    return {"n": n, "steps": (lambda x: min(x, 14) if n >= 6 else x)(rng.randrange(5, 40) if tier != "thorough" else rng.randrange(5, 90)), "ops": ops, "faults": faults, "flags": ["c09"],
+            "max_gates": rng.choice([4, 8, 12] if tier != "thorough" else [4, 8, 12, 24]), "backend": "torch" if rng.random() < 0.15 and not wide else "numpy"}
 
 
 # reach guard: a full-size batch in which one of these never fired means the workload or the
